@@ -107,6 +107,9 @@ func (sc *specCtx) lvalues(e CExpr) (locs []heapLoc, all bool) {
 		if e.Name == "all" {
 			return nil, true
 		}
+		if hv, _, _ := vc.ghostHV(sc.pkg, e.Name); hv != "" {
+			return []heapLoc{{hv, "nil"}}, false
+		}
 	case *CCall:
 		switch e.F {
 		case "elems": // elements of a slice
@@ -286,6 +289,14 @@ func (f *frame) callContract(st *State, callee *ssa.Function, cc *Contract, args
 	pre := st.clone()
 	sc := &specCtx{vc: vc, st: st, old: pre, vars: map[string]Val{}, bound: map[string]*Term{}, pkg: pkgOf(callee), fn: callee}
 	bindCall(sc, callee, cc, args)
+	for _, g := range cc.Ghosts {
+		// a callee witness is instantiated by the caller's witness of the same name
+		w, ok := vc.ghost[g.Name]
+		if !ok {
+			unsup("call of %s: no witness named %s in the caller's contract", short, g.Name)
+		}
+		sc.vars[g.Name] = w
+	}
 	// type invariants of arguments are proof obligations at the call
 	for i, a := range args {
 		if t, ok := a.(*Term); ok {
@@ -347,7 +358,19 @@ func (f *frame) callContract(st *State, callee *ssa.Function, cc *Contract, args
 		// the call returned, so the panic condition was false
 		n := *sc
 		n.st = pre
-		vc.obligeAndAssume(st, "pre."+short+".nopanic", not(n.evalBool(cc.PanicsIf.Expr)), "call does not panic: not ("+cc.PanicsIf.Src+")", pos)
+		q := n.evalBool(cc.PanicsIf.Expr)
+		if f.isTop && f.c != nil && f.c.PanicsIf != nil {
+			// the callee's panic propagates: allowed exactly when the caller's own
+			// panics_if condition holds
+			psc := f.specCtx(vc.oldState, vc.oldState)
+			psc.bound = map[string]*Term{}
+			f.bindParams(psc)
+			vc.oblige(st, "panic.only_if", implies(q, psc.evalBool(f.c.PanicsIf.Expr)),
+				"panic propagated from "+short+" only when: "+f.c.PanicsIf.Src, pos, false)
+			vc.assumeUnder(st.reach, not(q))
+		} else {
+			vc.obligeAndAssume(st, "pre."+short+".nopanic", not(q), "call does not panic: not ("+cc.PanicsIf.Src+")", pos)
+		}
 	}
 	for _, e := range cc.Ensures {
 		vc.assumeUnder(st.reach, sc.evalBool(e.Expr))
